@@ -206,7 +206,7 @@ func init() {
 		Technique: "deterministic simulation: structure predicate as an invariant on every simulated wordlist generation; boundary-biased choice walks (shipped and synthetic lists, forced first/last indices, Length 1, empty and functional separators)",
 		Rule:      "case = one WLRecipe.Generate call checked against the structure predicate; distinct by hash of (recipe, returned token sequence); non-trivial = Length >= 2 or a capitalising scheme",
 		Assumptions: []string{"title-casing is strings.Title", "a separator function's values for the gaps are the values it returned during the call (recorded by a wrapper), in any order"},
-		Episodes:    map[string]int{"quick": 12000, "thorough": 160000},
+		Episodes:    map[string]int{"quick": 12000, "thorough": 2000000},
 		TwiceEvery:  9,
 		Real:        []string{"WLRecipe.Generate/Entropy", "NewWordList", "Password.String/Tokens", "Tokens.Atoms/Separators", "separator presets / NewSFFunction"},
 		Simulated:   []string{"crypto/rand.Reader (choice tape, boundary-biased)", "word/alphabet index order (H2/H3)", "NewWordList visit order (H4)"},
